@@ -332,7 +332,11 @@ func execute(in input, member int, pre bool, hist []evJ) (o obs) {
 				group.MemberIndex(member), claim, sigs(100))
 		})
 	case "approval":
-		members := make(chain.OperatorIDs, 100)
+		size := 100
+		if member > size {
+			size = member // the uint8 edge: seat 255 of a (hypothetical) 255-seat group
+		}
+		members := make(chain.OperatorIDs, size)
 		for i := range members {
 			members[i] = chain.OperatorID(1000 + i)
 		}
@@ -541,7 +545,7 @@ func run(in input, em *lib.Emitter, id string) {
 		em.Tally("queue")
 		em.Case(lib.Case{ID: id, Coq: fmt.Sprintf("(CQueue %s %s %s %s)", lib.ZU(m), lib.ZU(f), lib.ZU(n), lib.ZU(q)),
 			Key: fmt.Sprintf("queue|%d|%d|%d", m, f, n), Nontrivial: f > 0 && m < f,
-			Sig: map[string]interface{}{"fn": "relay-entry", "what": "queue", "entry_mod_n": f, "late": late, "dup": false},
+			Sig: map[string]interface{}{"fn": "relay-entry", "what": "queue", "entry_mod_n": f, "late": late, "dup": false, "early": false},
 			In:  in, Out: q})
 	case "slots":
 		var items []string
@@ -549,6 +553,7 @@ func run(in input, em *lib.Emitter, id string) {
 		seen := map[uint64]int{}
 		dup := false
 		late := "none"
+		early := false
 		for _, m := range in.Members {
 			h0 := in.Ref
 			if (in.Kind == "beacon-dkg" || in.Kind == "relay-entry") && in.Ref > 0 {
@@ -563,6 +568,10 @@ func run(in input, em *lib.Emitter, id string) {
 			s := *o.Slot
 			outs[fmt.Sprint(m)] = s
 			items = append(items, lib.Pair(lib.Z(int64(m)), lib.ZU(s)))
+			if isEarly(in, m, s) {
+				early = true
+			}
+			em.Tally("slots-seat-" + seatClass(m))
 			if prev, ok := seen[s]; ok {
 				shareOK := in.Kind == "approval" && in.Prec == 0 && (prev == in.Submitter || m == in.Submitter)
 				if !shareOK {
@@ -578,7 +587,7 @@ func run(in input, em *lib.Emitter, id string) {
 				}
 			}
 		}
-		sig := map[string]interface{}{"fn": in.Kind, "what": "slots", "dup": dup}
+		sig := map[string]interface{}{"fn": in.Kind, "what": "slots", "dup": dup, "early": early}
 		nontrivial := len(in.Members) >= 2
 		if in.Kind == "relay-entry" {
 			r := new(big.Int).Mod(entryInt(in), big.NewInt(int64(in.N))).Uint64()
@@ -608,14 +617,18 @@ func run(in input, em *lib.Emitter, id string) {
 		}
 		em.Tally("run-" + in.Kind)
 		em.Tally("run-exit-" + o.Exit)
+		early := false
 		if o.SubmitIdx >= 0 {
 			em.Tally("run-submitted")
+			em.Tally("run-submitted-seat-" + seatClass(m))
+			early = isEarly(in, m, o.SubmitAt)
 		}
+		em.Tally("run-seat-" + seatClass(m))
 		em.Case(lib.Case{ID: id, Coq: fmt.Sprintf("(CRun %s %s %s %s %s)", paramsCoq(in), lib.Z(int64(m)), lib.Bool(in.Pre),
 			histCoq(hist), obsCoq(o)),
 			Key:        fmt.Sprintf("run|%s|%d|%d|%d|%s|%d|%d|%d|%d|%v|%v", in.Kind, in.Ref, in.Step, in.N, in.Entry, in.Challenge, in.Prec, in.Submitter, m, in.Pre, hist),
 			Nontrivial: hasComp && len(hist) >= 3,
-			Sig:        map[string]interface{}{"fn": in.Kind, "what": "run", "pre": in.Pre, "panic": o.Exit == "Panic"},
+			Sig:        map[string]interface{}{"fn": in.Kind, "what": "run", "pre": in.Pre, "panic": o.Exit == "Panic", "early": early},
 			In:         in, Out: o})
 	}
 }
@@ -691,7 +704,7 @@ func genParams(r *lib.Rng, kind string) input {
 	in := input{Kind: kind, Ref: randRef(r)}
 	switch kind {
 	case "beacon-dkg", "relay-entry":
-		ns := []int{64, 64, 3, 5, 8, 13, 64, 100, 1, 2}
+		ns := []int{64, 64, 3, 5, 8, 13, 64, 100, 1, 2, 100, 255}
 		n := ns[r.Intn(len(ns))]
 		c := beaconConfig(n)
 		in.N, in.Step, in.Timeout = c.GroupSize, c.ResultPublicationBlockStep, c.RelayEntryTimeout
@@ -730,6 +743,94 @@ func slotGuess(in input, m int) uint64 { // only to aim the generated heads arou
 		}
 		return in.Ref + in.Challenge + 1 + in.Prec + uint64(m-1)*15
 	}
+}
+
+// docSlot is the documented slot "reference + (seat-1)*step" in unbounded arithmetic. It only
+// labels cases (Sig "early", tallies) and aims histories; the verdict is Coq's (doc_slot).
+func docSlot(in input, m int) *big.Int {
+	u := func(x uint64) *big.Int { return new(big.Int).SetUint64(x) }
+	mul := func(a, b *big.Int) *big.Int { return new(big.Int).Mul(a, b) }
+	add := func(a, b *big.Int) *big.Int { return new(big.Int).Add(a, b) }
+	seat := big.NewInt(int64(m - 1))
+	switch in.Kind {
+	case "beacon-dkg":
+		return add(u(in.Ref), mul(seat, u(in.Step)))
+	case "relay-entry":
+		f := new(big.Int).Mod(entryInt(in), big.NewInt(int64(in.N))).Int64()
+		q := int64(m) - f
+		if int64(m) < f {
+			q = int64(m) + int64(in.N) - f
+		}
+		return add(u(in.Ref), mul(big.NewInt(q), u(in.Step)))
+	case "tbtc-dkg":
+		return add(u(in.Ref), mul(seat, big.NewInt(3)))
+	case "inactivity":
+		return add(u(in.Ref), mul(seat, big.NewInt(2)))
+	default:
+		start := add(add(u(in.Ref), u(in.Challenge)), big.NewInt(1))
+		if m == in.Submitter {
+			return start
+		}
+		return add(add(start, u(in.Prec)), mul(seat, big.NewInt(15)))
+	}
+}
+
+func isEarly(in input, m int, block uint64) bool {
+	return new(big.Int).SetUint64(block).Cmp(docSlot(in, m)) < 0
+}
+
+// seat classes: the first seats, the last seat of the real groups (64 beacon, 100 tBTC), seats
+// whose delay no longer fits narrower integer types (seat-1 times 2, 3, 15 beyond 255), and the
+// uint8 edge 255
+func seatClass(m int) string {
+	switch {
+	case m == 255:
+		return "255"
+	case m > 100:
+		return "101-254"
+	case m >= 87:
+		return "87-100"
+	case m >= 19:
+		return "19-86"
+	}
+	return "1-18"
+}
+
+// seatsUpTo: 1..100 and the uint8 edge 255 (bounded by the group size where the routine
+// requires member <= n)
+func seatsUpTo(limit int) []int {
+	var ms []int
+	for m := 1; m <= 100 && m <= limit; m++ {
+		ms = append(ms, m)
+	}
+	if limit >= 255 {
+		ms = append(ms, 255)
+	}
+	return ms
+}
+
+func pickSeat(r *lib.Rng, limit int) int {
+	clamp := func(m int) int {
+		if m > limit {
+			return limit
+		}
+		return m
+	}
+	switch r.Intn(8) {
+	case 0:
+		return 1
+	case 1:
+		return clamp(255)
+	case 2:
+		return clamp(r.Range(19, 100))
+	case 3:
+		return clamp(r.Range(87, 100))
+	case 4:
+		return clamp(r.Range(129, 255))
+	case 5:
+		return clamp(100)
+	}
+	return clamp(r.Range(1, 100))
 }
 
 func genHist(r *lib.Rng, in input, m int) []evJ {
@@ -796,6 +897,16 @@ func groupSize(in input) int {
 	return 100
 }
 
+// seatLimit: the highest member index the routine accepts for these parameters. Only the relay
+// entry routine relates the index to the group size (queue positions); everywhere else the
+// index is a bare group.MemberIndex (uint8).
+func seatLimit(in input) int {
+	if in.Kind == "relay-entry" {
+		return in.N
+	}
+	return 255
+}
+
 func main() {
 	o := lib.ParseOpts()
 	em := lib.NewEmitter()
@@ -842,6 +953,107 @@ func main() {
 			Hist: []evJ{{"head", 500}, {"head", 510}, {"head", 511}}}, em, "corpus-approval-submitter")
 		run(input{Fn: "run", Kind: "approval", Ref: 500, Challenge: 10, Prec: 20, Submitter: 5, Members: []int{2},
 			Hist: []evJ{{"head", 500}, {"head", 545}, {"competing", 0}}}, em, "corpus-approval-superseded")
+		// high seats: the delay (seat-1)*step exceeds 255; the member must sit through heads that
+		// are one uint8 wrap-around below its documented slot (1000+10+1+20+18*15 = 1301)
+		run(input{Fn: "run", Kind: "approval", Ref: 1000, Challenge: 10, Prec: 20, Submitter: 1, Members: []int{19},
+			Hist: []evJ{{"head", 1000}, {"head", 1045}, {"head", 1300}, {"head", 1301}}}, em, "corpus-approval-seat19-waits-for-its-slot")
+		run(input{Fn: "run", Kind: "tbtc-dkg", Ref: 1000, Members: []int{100},
+			Hist: []evJ{{"head", 1000}, {"head", 1041}, {"head", 1296}, {"head", 1297}}}, em, "corpus-tbtc-dkg-seat100-waits-for-its-slot")
+		run(input{Fn: "run", Kind: "inactivity", Ref: 1000, Members: []int{255},
+			Hist: []evJ{{"head", 1000}, {"head", 1252}, {"head", 1507}, {"head", 1508}}}, em, "corpus-inactivity-seat255-waits-for-its-slot")
+		run(input{Fn: "run", Kind: "beacon-dkg", Ref: 1000, N: 64, Step: 3, Timeout: 192, Members: []int{100},
+			Hist: []evJ{{"head", 999}, {"head", 1041}, {"head", 1296}, {"head", 1297}}}, em, "corpus-beacon-dkg-seat100-waits-for-its-slot")
+	}
+
+	// --- seat magnitude, closed form: the slot every routine computes for seats 1..100 and the
+	// uint8 edge 255 (tBTC groups have 100 seats, beacon groups 64; group.MemberIndex is a uint8),
+	// once per routine for ALL seats 1..255
+	{
+		type setting struct {
+			name string
+			in   input
+		}
+		var settings []setting
+		loc100, loc255 := beaconConfig(100), beaconConfig(255)
+		refs := []uint64{0, 17_000_000, 1<<62 - 5000}
+		for i, ref := range refs {
+			settings = append(settings,
+				setting{fmt.Sprintf("beacon-dkg-eth-%d", i), input{Kind: "beacon-dkg", Ref: ref, N: eth.GroupSize,
+					Step: eth.ResultPublicationBlockStep, Timeout: eth.RelayEntryTimeout}},
+				setting{fmt.Sprintf("tbtc-dkg-%d", i), input{Kind: "tbtc-dkg", Ref: ref}},
+				setting{fmt.Sprintf("inactivity-%d", i), input{Kind: "inactivity", Ref: ref}})
+		}
+		settings = append(settings,
+			setting{"beacon-dkg-local", input{Kind: "beacon-dkg", Ref: 20_000_001, N: loc100.GroupSize,
+				Step: loc100.ResultPublicationBlockStep, Timeout: loc100.RelayEntryTimeout}},
+			setting{"approval-a", input{Kind: "approval", Ref: 1000, Challenge: 10, Prec: 20, Submitter: 1}},
+			setting{"approval-b", input{Kind: "approval", Ref: 17_000_000, Challenge: 11520, Prec: 5760, Submitter: 100}},
+			setting{"approval-c", input{Kind: "approval", Ref: 1<<62 - 5000, Challenge: 0, Prec: 1, Submitter: 255}},
+			setting{"approval-d", input{Kind: "approval", Ref: 0, Challenge: 100, Prec: 15, Submitter: 19}})
+		// relay entry: the seat is bounded by the group size; entries 1, n-1 (mod n) and a
+		// signature-sized one (entry = 0 mod n is the known finding, generated below as before)
+		for _, c := range []*beaconchain.Config{eth, loc100, loc255} {
+			for j, e := range []string{"01", hex.EncodeToString(big.NewInt(int64(2*c.GroupSize - 1)).Bytes()),
+				hex.EncodeToString(rng.Fork(fmt.Sprintf("seats-entry-%d", c.GroupSize)).Bytes(32))} {
+				if new(big.Int).Mod(new(big.Int).SetBytes(entryBytes(e)), big.NewInt(int64(c.GroupSize))).Sign() == 0 {
+					e = "01"
+				}
+				settings = append(settings, setting{fmt.Sprintf("relay-entry-n%d-%d", c.GroupSize, j),
+					input{Kind: "relay-entry", Ref: 17_000_000 + uint64(j), N: c.GroupSize, Step: c.ResultPublicationBlockStep,
+						Timeout: c.RelayEntryTimeout, Entry: e}})
+			}
+		}
+		everySeat := map[string]bool{}
+		for _, st := range settings {
+			in := st.in
+			in.Fn = "slots"
+			limit := seatLimit(in)
+			if in.Kind == "relay-entry" {
+				in.Members = allMembers(in.N) // all queue positions
+			} else if !everySeat[in.Kind] || o.Tier != "quick" {
+				everySeat[in.Kind] = true
+				in.Members = allMembers(limit)
+			} else {
+				in.Members = seatsUpTo(limit)
+			}
+			run(in, em, "seats-"+st.name)
+		}
+		// ... and through the real submitters / approvers with the fake block counter: heads just
+		// below the documented slot of a high seat (one uint8 wrap-around below it, one block
+		// below it), then the slot itself
+		seats := []int{19, 36, 87, 100, 129, 255}
+		if o.Tier != "quick" {
+			seats = append(allMembers(100), 129, 172, 200, 254, 255)
+		}
+		for _, st := range settings {
+			if st.in.Kind == "relay-entry" && st.in.N < 255 || (o.Tier == "quick" && (st.name[len(st.name)-1] == '2' || st.name == "approval-c")) {
+				continue
+			}
+			for _, m := range seats {
+				in := st.in
+				if m > seatLimit(in) {
+					continue
+				}
+				in.Fn, in.Members = "run", []int{m}
+				d := docSlot(in, m)
+				if !d.IsUint64() || d.Uint64() < in.Ref+2 {
+					continue
+				}
+				s := d.Uint64()
+				hist := []evJ{{"head", in.Ref}}
+				for _, back := range []uint64{512, 256, 1} {
+					if s-back > in.Ref {
+						hist = append(hist, evJ{"head", s - back})
+					}
+				}
+				hist = append(hist, evJ{"head", s})
+				if in.Kind == "relay-entry" {
+					hist = append(hist, evJ{"competing", 0})
+				}
+				in.Hist = hist
+				run(in, em, fmt.Sprintf("seat-run-%s-%d", st.name, m))
+			}
+		}
 	}
 
 	// --- queue index: exhaustive for n <= 9, random beyond
@@ -880,6 +1092,9 @@ func main() {
 			in.Members = allMembers(n)
 		} else {
 			in.Members = someMembers(r, n, r.Range(2, 12))
+			if lim := seatLimit(in); lim > n && r.Bool() {
+				in.Members = someMembers(r, lim, r.Range(2, 12)) // seats beyond the group size, up to the uint8 edge
+			}
 			if in.Kind == "approval" && r.Bool() {
 				in.Members = append(in.Members[:1], append([]int{in.Submitter}, in.Members[1:]...)...)
 				seen := map[int]bool{}
@@ -897,7 +1112,7 @@ func main() {
 	}
 
 	// --- runs with histories
-	for i := 0; i < o.Count(500, 6000); i++ {
+	for i := 0; i < o.Count(400, 6000); i++ {
 		r := rng.Fork(fmt.Sprintf("run%d", i))
 		in := genParams(r, kinds[i%len(kinds)])
 		in.Fn = "run"
@@ -908,6 +1123,8 @@ func main() {
 			m = 1
 		case 1:
 			m = n
+		case 2, 3:
+			m = pickSeat(r, seatLimit(in))
 		}
 		in.Members = []int{m}
 		if (in.Kind == "beacon-dkg" || in.Kind == "tbtc-dkg" || in.Kind == "inactivity") && r.Chance(1, 8) {
